@@ -27,12 +27,21 @@ func T(e ast.Expr, st *State) Term {
 }
 
 // chain returns the term followed by its successive definitions.
-func (p *Prog) chain(t Term) []Term {
+func (p *Prog) chain(t Term) []Term { return p.chainOpt(t, true) }
+
+// chainOpt: with wrap, calls of pure wrappers are followed into the expression they return.
+func (p *Prog) chainOpt(t Term, wrap bool) []Term {
 	out := []Term{t}
 	cur := t
-	for i := 0; i < 6; i++ {
+	for i := 0; i < 8; i++ {
 		id, ok := unparen(cur.E).(*ast.Ident)
 		if !ok {
+			// a call of a pure wrapper stands for the expression the wrapper returns
+			if nt, isWrap := p.Unwrap(cur); wrap && isWrap {
+				cur = nt
+				out = append(out, cur)
+				continue
+			}
 			break
 		}
 		o := p.ObjOf(id)
@@ -58,7 +67,7 @@ func (p *Prog) chain(t Term) []Term {
 
 // DefOf returns the final definition of a term (following plain aliases).
 func (p *Prog) DefOf(t Term) Term {
-	c := p.chain(t)
+	c := p.chainOpt(t, false)
 	return c[len(c)-1]
 }
 
